@@ -13,4 +13,16 @@ PROPS = {
         "trusted": ["the exhaustive forward sweep (family sp) makes `sp` of the model equal to sqrt_price_from_tick_index on every tick; "
                     "`ti` of the model is compared with tick_index_from_sqrt_price at every tick boundary +-1 and on random interior prices"],
     },
+    "C02": {
+        "lean_modules": ["WP.Props.C02"],
+        "lean_support": ["WP.Lemmas.Rounding", "WP.Props.C02.Components", "WP.Props.C02.Inversion", "WP.Props.C02.Amounts",
+                         "WP.Props.C02.NextPrice", "WP.Props.C02.Arith", "WP.Props.C02.Direction"],
+        "families": [("step", 60000, 5000000), ("da", 20000, 1000000), ("db", 20000, 1000000), ("nsp", 20000, 1000000),
+                     ("mdr", 10000, 500000), ("msr", 10000, 500000), ("d256", 20000, 2000000)],
+        "rule": "step: compute_swap on (remaining, fee rate, liquidity, current, target, mode, direction) with log-uniform magnitudes, "
+                "tick-relative targets and budgets scaled to 0..2.2x the amount the whole move needs, so max, partial and no-move steps all occur; "
+                "non-trivial = successful step moving a non-zero amount on well-formed arguments; da/db/nsp/mdr/msr/d256: component functions; "
+                "distinct by hash of the op line",
+        "trusted": ["exact-arithmetic oracle of family `step` checks every clause of C02 on the implementation with num-bigint, independently of the Lean model"],
+    },
 }
